@@ -316,73 +316,89 @@ def check_diff_lines(chk, progs):
         chk.ok('C20.D', f'result array {R} is created once by arrayNew() and returned')
     else:
         chk.bad('C20.D', rel, 'diffLines', f'{R} initialisation', f'the returned array {R} must be created once with arrayNew()', detail={})
-    # --- side taint
-    L, Rt = {left_p}, {right_p}
-    changed = True
+    # --- side assignment: a name belongs to the left (right) side when it is defined only from left (right) names or is ordered against a left (right) length / cursor;
+    #     names defined from or ordered against BOTH sides are shared offsets (e.g. a common prefix / suffix counter) and belong to neither
     all_stmts = list(walk_stmts(fn.body))
-    neutral = set()
-    while changed:
+    ev = {left_p: {'L'}, right_p: {'R'}}      # evidence: which sides a name was defined from / ordered against; both = shared offset
+
+    def single(n):
+        e = ev.get(n, set())
+        return next(iter(e)) if len(e) == 1 else None
+
+    def add(n, side):
+        if n == R or side is None:
+            return False
+        cur = ev.setdefault(n, set())
+        if side in cur:
+            return False
+        cur.add(side)
+        return True
+    changed = True
+    rounds = 0
+    while changed and rounds < 50:
         changed = False
+        rounds += 1
         for s in all_stmts:
-            exprs = stmt_exprs(s)
             if s.kind == 'assign':
-                ns = {x[1] for x in walk_expr(s.expr) if x[0] == 'var'}
-                for side in (L, Rt):
-                    other = Rt if side is L else L
-                    if ns & side and not ns & other and s.name not in side:
-                        side.add(s.name)
-                        changed = True
+                for v in {x[1] for x in walk_expr(s.expr) if x[0] == 'var'} - {s.name}:
+                    changed |= add(s.name, single(v))
             if s.kind == 'for' and s.expr[0] == 'var':
-                for side in (L, Rt):
-                    if s.expr[1] in side and s.extra['value'] not in side:
-                        side.add(s.extra['value'])
-                        changed = True
-            for e in exprs:
+                changed |= add(s.extra['value'], single(s.expr[1]))
+            for e in stmt_exprs(s):
                 for x in walk_expr(e):
-                    if x[0] == 'call' and x[1] in ('arrayGet', 'arraySlice') and x[2] and x[2][0][0] == 'var':
-                        arr = x[2][0][1]
-                        for side in (L, Rt):
-                            if arr in side:
-                                for a in x[2][1:]:
-                                    if a[0] == 'var' and a[1] not in side:
-                                        side.add(a[1])
-                                        changed = True
                     if x[0] == 'bin' and x[1] in ('<', '<=', '>', '>=') and x[2][0] == 'var' and x[3][0] == 'var':
                         a, b = x[2][1], x[3][1]
-                        for side in (L, Rt):
-                            if (a in side) != (b in side):
-                                side.add(a)
-                                side.add(b)
-                                changed = True
-    both = (L & Rt) - {R}
-    if both:
-        for n in sorted(both):
-            sites = [f'line {s.line_no}: {show(e)[:70]}' for s in all_stmts for e in stmt_exprs(s) if n in {x[1] for x in walk_expr(e) if x[0] == 'var'}
-                     and ({x[1] for x in walk_expr(e) if x[0] == 'var'} & (L - both)) and ({x[1] for x in walk_expr(e) if x[0] == 'var'} & (Rt - both))]
-            chk.bad('C20.D', rel, 'diffLines', f'{n} is used with both sides',
-                    f'`{n}` is used as an index/length of the left AND of the right side (e.g. {"; ".join(sites[:2])}): a cursor of one input addresses the lines of the other, so blocks contain '
-                    f'the wrong lines whenever the two cursors differ', detail={'name': n})
-    else:
-        chk.ok('C20.D', f'side partition: left-side names {sorted(L)}, right-side names {sorted(Rt)} are disjoint')
+                        sa_, sb_ = single(a), single(b)
+                        changed |= add(b, sa_)
+                        changed |= add(a, sb_)
+    L = {n for n, e in ev.items() if e == {'L'}}
+    Rt = {n for n, e in ev.items() if e == {'R'}}
+    shared = {n for n, e in ev.items() if len(e) == 2}
+    # every element access / slice of one side's array is indexed by names of that side or shared offsets only
+    n_access = 0
+    for s in all_stmts:
+        for e in stmt_exprs(s):
+            for x in walk_expr(e):
+                if x[0] == 'call' and x[1] in ('arrayGet', 'arraySlice') and x[2] and x[2][0][0] == 'var':
+                    arr = x[2][0][1]
+                    side, other, sname = (L, Rt, 'left') if arr in L else (Rt, L, 'right') if arr in Rt else (None, None, None)
+                    if side is None:
+                        continue
+                    n_access += 1
+                    ix_names = {y[1] for a in x[2][1:] for y in walk_expr(a) if y[0] == 'var'}
+                    wrong = ix_names & other
+                    if wrong:
+                        chk.bad('C20.D', rel, 'diffLines', f'{show(x)[:70]} uses {sorted(wrong)}',
+                                f'line {s.line_no}: `{show(x)[:80]}` addresses the {sname} lines with {sorted(wrong)}, a cursor / length of the other side: the block contains the wrong lines whenever '
+                                f'the two cursors differ', detail={'line': s.line_no})
+                    else:
+                        chk.ok('C20.D', f'line {s.line_no}: {show(x)[:60]} is indexed by {sname}-side names / shared offsets only', trivial=True)
+    if n_access < 6:
+        raise Unrecognised('C20.D', f'only {n_access} element accesses of the two line arrays found', rel)
+    chk.ok('C20.D', f'side assignment: left {sorted(L)}, right {sorted(Rt)}, shared offsets {sorted(shared)}')
     # --- pushes
     pushes = []
 
-    def visit(stmts, guards):
-        for s in stmts:
+    earlier = {}     # id(statement) -> statements that precede it (or its ancestors) inside the innermost enclosing loop body
+
+    def visit(stmts, guards, before):
+        for ix, s in enumerate(stmts):
+            here = before + list(stmts[:ix])
             if s.kind == 'if':
                 prior = []
                 for cond, body in s.branches:
-                    visit(body, guards + ([('if', cond)] if cond is not None else [('else', tuple(prior))]))
+                    visit(body, guards + ([('if', cond)] if cond is not None else [('else', tuple(prior))]), here)
                     if cond is not None:
                         prior.append(cond)
             elif s.kind in ('while', 'for'):
-                visit(s.body, guards + [(s.kind, s.expr)])
+                visit(s.body, guards + [(s.kind, s.expr)], [])
             else:
                 for e in stmt_exprs(s):
                     for x in walk_expr(e):
                         if x[0] == 'call' and x[1] == 'objectNew':
                             pushes.append((s, x, guards, e))
-    visit(fn.body, [])
+                            earlier[id(s)] = here
+    visit(fn.body, [], [])
     n_blocks = 0
     for s, obj, guards, whole in pushes:
         args = obj[2]
@@ -418,6 +434,8 @@ def check_diff_lines(chk, progs):
                             ok = True
             if ok:
                 chk.ok('C20.D', where + ': lines collected under an equality test of a left and a right element')
+            elif names & (L | Rt | shared) or any(t.kind == 'assign' and t.name == coll for t in all_stmts):
+                chk.unrec('C20.D', f'line {s.line_no}: the Identical block {show(lines)[:40]} is not filled by arrayPush under a left == right test; whether its lines are common to both inputs is not decided', rel)
             else:
                 chk.bad('C20.D', rel, 'diffLines', 'Identical block not collected under left == right', f'line {s.line_no}: the lines of an Identical block must be collected while a left and a right line compare equal', detail={})
         else:
@@ -425,11 +443,17 @@ def check_diff_lines(chk, progs):
         # non-empty guard: nearest `if` guard mentions the names of the lines expression (index < length / collected array)
         g = [c for k, c in guards if k == 'if']
         need = names
+        exits = [t for t in earlier.get(id(s), []) if t.kind == 'if' and any(cond is not None and ({x[1] for x in walk_expr(cond) if x[0] == 'var'} & need) and body
+                                                                               and body[-1].kind in ('break', 'continue', 'return') for cond, body in t.branches)]
         if g and ({x[1] for x in walk_expr(g[-1]) if x[0] == 'var'} & need):
             chk.ok('C20.D', f'line {s.line_no}: {T} block is pushed under the guard `{show(g[-1])[:50]}` (non-empty line list)')
-        else:
+        elif exits:
+            chk.ok('C20.D', f'line {s.line_no}: {T} block is pushed after the loop-body exit test `{show(exits[0].branches[0][0])[:50]}` on its own index (the range is non-empty here)')
+        elif not any(k in ('while', 'for') for k, _c in guards):
             chk.bad('C20.D', rel, 'diffLines', f'{T} block at line {s.line_no} pushed unguarded',
                     f'line {s.line_no}: the {T} block is pushed without a condition on its own line range / collected array: an empty block can be emitted', detail={'line': s.line_no})
+        else:
+            chk.unrec('C20.D', f'line {s.line_no}: no condition on the line range of the {T} block was recognised (non-emptiness not decided)', rel)
     if n_blocks < 7:
         raise Unrecognised('C20.D', f'only {n_blocks} difference blocks found in diffLines', rel)
     for T in ('Identical', 'Add', 'Remove'):
